@@ -109,10 +109,23 @@ def long_record_case(rng):
     return conn_case(B, 1, segs, scripts, rs, [], rng.choice([0, 1])), ["conn", "k2", "rscript", "long-record-early-return"]
 
 
+def max_record_case(rng, P, pad):
+    """request 1's Stdin is ONE maximum-size record left wholly unread by a handler that returns at once, on a buffer large
+    enough to hold the whole request: Request::close is already at a record boundary, so the NEXT request parser has to skip
+    the record (content + padding > 65535 possible) in one step; request 2 must then be served"""
+    w1 = flat(minimal_preamble(1, 1, flags=1) + [record(STDIN, 1, [rng.randrange(256) for _ in range(P)], pad), record(STDIN, 1, [], 0)])
+    w2, m2 = gen_request(rng, 2, False, 64)
+    segs = [(0, 0, w1), (1, 0, w2)]
+    scripts = [[("ret", 0, 0)], [("readall",), ("ret", 0, 1)]]
+    return conn_case(rng.choice([70000, 131072]), 1, segs, scripts, [], [], rng.choice([0, 1])), ["conn", "k2", "max-record-unread"]
+
+
 def gen_cases(rng, tier):
     quick = tier == "quick"
     for _ in range(900 if quick else 60000):
         yield one(rng)
+    for (P, pad) in ((65535, 1), (65535, 0), (65534, 2), (65530, 255), (65281, 255)):
+        yield max_record_case(rng, P, pad)
     for _ in range(8 if quick else 300):
         yield long_record_case(rng)
     for _ in range(3 if quick else 100):
@@ -125,7 +138,7 @@ def nontrivial(line, tags):
 
 
 def min_classes(tier):
-    return {"k2": 100, "k3": 100, "k4": 100, "rscript": 300, "wscript": 300, "vectored": 200, "first-slice": 200, "big-write": 3, "long-record-early-return": 8}
+    return {"k2": 100, "k3": 100, "k4": 100, "rscript": 300, "wscript": 300, "vectored": 200, "first-slice": 200, "big-write": 3, "long-record-early-return": 8, "max-record-unread": 5}
 
 
 # ---------------------------------------------------------------------------------------------
